@@ -65,6 +65,10 @@ def plan(tier, seed):
         tot = len(GAPS[tier]) ** (m - 1)
         for a, b in E.chunks(tot, 40 if tier == "quick" else 200):
             shards.append(("squeeze", m, tier, a, b))
+    # deep trees: 6..32 equally spaced samples of one class (a density plateau conquered sample by
+    # sample) followed by a few samples of another class, k = 1; and shrinking gaps (rising densities)
+    shards.append(("chain", 6, 20))
+    shards.append(("chain", 20, 33))
     for a, b in E.chunks(729, 60):
         shards.append(("g", 4, 3, a, b))
     for a, b in E.chunks(1024, 64):
@@ -118,6 +122,28 @@ def _programs(shard, seed):
                            "labels": lab, "max_k": 3, "val": {"X": X, "labels": lab}}
                 yield {"model": "UnsupervisedOPF", "mode": "features", "X": X, "metric": "euclidean",
                        "labels": [0] * m + [1], "min_k": 1, "max_k": 3}
+        return
+    if kind == "chain":
+        _, a, b = shard
+        sc = [1.0, 0.5, 2.0, 1.5][seed % 4] if seed else 1.0
+        for n in range(a, b):
+            even = [sc * i for i in range(n)]
+            shrink, x = [], 0.0
+            for i in range(n):
+                shrink.append(x)
+                x += sc * (2.0 - 0.04 * i)
+            for xs, far in ((even, False), (even, True), (shrink, False), (shrink[::-1], False)):
+                tail = [max(xs) + sc * 9.0 + 0.3 * sc * j for j in range(4)]
+                if far:
+                    # the other class equally spaced as well: every density ties, the plateau is one path
+                    tail = [max(xs) + sc * 81.0 + sc * j for j in range(4)]
+                X = [[v] for v in xs] + [[v] for v in tail]
+                for la, lb in ((1, 2), (0, 1)):
+                    lab = [la] * n + [lb] * 4
+                    yield {"model": "KNNSupervisedOPF", "mode": "features", "X": X, "metric": "euclidean",
+                           "labels": lab, "max_k": 1, "val": {"X": X, "labels": lab}}
+                yield {"model": "UnsupervisedOPF", "mode": "features", "X": X, "metric": "euclidean",
+                       "labels": [1] * n + [2] * 4, "min_k": 1, "max_k": 1}
         return
     if kind == "lat":
         _, lk, n, metric, a, b = shard
